@@ -92,6 +92,7 @@ type FuncVC struct {
 	pendingLabel string
 	curPos   token.Pos
 	calledContracts map[string]bool
+	callResults     map[string]Val // res_<F>_<k>: first result of the k-th call of F (callarg clauses)
 	lockHeld map[string]bool
 	dry      dryInfo
 	lastSpecResults []Val
